@@ -7,3 +7,12 @@ for t, k in combos():
     hb = ['-DINT_HARNESS_BOUND=8388607LL'] if (t, k) in HEAVY else []
     HARNESSES.append(typed(H, 'enc_%s_%s' % (t, k), 'typed/enc_exact.c', t, k, tiers=tiers, defines=hb, bounds=('|v| < 2^23 (unconstrained-length UPER integer)' if hb else ''),
                            functions=['%s codec on %s' % (k, t)], inputs='abstract value of %s (all fields symbolic)' % t))
+
+# Layer K: UPER building blocks with all arguments symbolic (covers the variable-length parts that are
+# too costly at type level)
+PK = ['skeletons/per_support.c', 'skeletons/asn_bit_data.c']
+for k, inp in (('K_NSNNWN', 'n < 2^24'), ('K_LENGTH', 'length < 16384'), ('K_FRAG', '16384 <= length < 2^22'), ('K_NSLENGTH', '1..64'),
+               ('K_CWN', 'value of 1..64 bits after a 0..7 bit prefix'), ('K_FEWBITS', 'three consecutive fields of 0..7, 0..31, 0..31 bits')):
+    HARNESSES.append(H('uperk_%s' % k[2:].lower(), 'C02/uper_kernels.c', sources=PK, defines=['-D' + k], exclude=r'xer|_print',
+                       functions=['uper_put/get_%s' % k[2:].lower(), 'asn_put_few_bits', 'asn_get_few_bits', 'asn_put_aligned_flush'],
+                       inputs=inp, bounds='none beyond the stated argument range'))
